@@ -307,9 +307,42 @@ func c03(c *core.Check) {
 	c03Sheets(c, r5)
 
 	// ---- R6 filtered blocks never apply
-	r6 := c.Rule("R6", "the bodies of @media, @import and <link>/<style media> are processed only on paths where evaluateMediaQuery returned true; a rule is added to the matcher only when its selector parsed without error", 4)
+	r6 := c.Rule("R6", "the bodies of @media, @import and <link>/<style media> are processed only on paths where evaluateMediaQuery returned true; a rule is added to the matcher only when its selector parsed without error; the device media type is passed on unchanged to nested and imported sheets", 4)
 	c03Media(c, r6)
+
+	// ---- R7 every selector of a list is tested
+	r7 := c.Rule("R7", "matcher.match tests every selector of every rule against the element: each iteration of the loop over a rule's selector list reaches sel.Match, and the loop has no early exit (each matching selector contributes its own specificity)", 2)
+	c03Matcher(c, r7)
 }
+
+func c03Matcher(c *core.Check, r *core.Rule) {
+	p := c.Prog
+	mm := p.Method("html/tree", "matcher", "match")
+	if mm == nil {
+		r.Anchor("html/tree.matcher.match")
+		return
+	}
+	var matchCall ssa.Instruction
+	core.Instrs(mm, func(in ssa.Instruction) {
+		if call, ok := in.(*ssa.Call); ok && call.Common().IsInvoke() && call.Common().Method.Name() == "Match" {
+			matchCall = in
+		}
+	})
+	if matchCall == nil {
+		r.Anchor("call sel.Match(element) in html/tree.matcher.match")
+		return
+	}
+	l := core.InnermostLoop(mm, matchCall.Block())
+	if l == nil {
+		r.Fail("matcher.match loops over the selector list", p.Pos(matchCall.Pos()), "sel.Match is not called inside a loop")
+		return
+	}
+	always, exits := core.EveryIterationPasses(l, func(in ssa.Instruction) bool { return in == matchCall })
+	r.Cond(always, "every selector of the list is tested", p.Pos(matchCall.Pos()), "every iteration of the selector loop reaches sel.Match(element)", "an iteration of the selector loop can complete without calling sel.Match: a selector of the list is skipped, the rule then applies with another selector's specificity or not at all")
+	r.Cond(len(exits) == 0, "the selector loop has no early exit", p.Pos(matchCall.Pos()), "the loop is left only when the list is exhausted", "the loop over the selector list can be left early: later (possibly more specific) selectors of the list are not tested")
+}
+
+func unusedC03() {}
 
 func exprName(v ssa.Value) string {
 	switch x := v.(type) {
@@ -751,6 +784,42 @@ func c03Media(c *core.Check, r *core.Rule) {
 	guarded(pre, pre, "@media body → preprocessStylesheet")
 	guarded(pre, newCSS, "@import → newCSS")
 	guarded(find, newCSS, "<style>/<link> → newCSS")
+	// the device media type reaches nested sheets unchanged
+	mediaParam := func(fn *ssa.Function) *ssa.Parameter {
+		for _, par := range fn.Params {
+			if par.Name() == "deviceMediaType" || par.Name() == "mediaType" {
+				return par
+			}
+		}
+		return nil
+	}
+	plumb := func(fn, target *ssa.Function, what string) {
+		src, dst := mediaParam(fn), mediaParam(target)
+		if src == nil || dst == nil {
+			r.Anchor("deviceMediaType parameter of " + fn.Name() + " / " + target.Name())
+			return
+		}
+		di := -1
+		for i, q := range target.Params {
+			if q == dst {
+				di = i
+			}
+		}
+		core.Instrs(fn, func(in ssa.Instruction) {
+			call, ok := in.(*ssa.Call)
+			if !ok || call.Common().StaticCallee() != target {
+				return
+			}
+			fromParam := core.DerivesFrom(call.Call.Args[di], func(v ssa.Value) bool { return v == ssa.Value(src) })
+			r.Cond(fromParam, core.FuncName(fn)+" | "+what+" keeps the device media type", p.Pos(call.Pos()), "the callee receives this function's deviceMediaType", "the nested sheet is processed for a different media type than the document's: its @media blocks are filtered wrongly")
+		})
+	}
+	plumb(pre, pre, "@media body")
+	plumb(pre, newCSS, "@import")
+	plumb(find, newCSS, "<style>/<link>")
+	if nc := newCSS; nc != nil {
+		plumb(nc, pre, "newCSS → preprocessStylesheet")
+	}
 
 	// evaluateMediaQuery returns true only for "all" or the device medium
 	{
